@@ -125,8 +125,8 @@ def run(ctx):
         if rr.get('stop') in ('nswp', 'e', 'e_vld', 'cb', 'conv') and rr.get('acc_ok'):
             npred += 1
     ctx.notes['traces_ending_exact'] = npred
-    # the cache dictionary seen through the library's own reader: cache_to_data(cache) lists exactly the keys (in
-    # insertion order, one row per key, integer typed) with the oracle's values, the number of rows is info['m'],
+    # the cache dictionary seen through the library's own reader: cache_to_data(cache) lists exactly the keys (one row
+    # per key, integer typed) with the oracle's values, the number of rows is info['m'],
     # and the returned tensor reproduces these data (accuracy_on_data) once the run is exact
     import teneva
     for k, (n, rho, r0, a, b, nswp) in enumerate(confs[:4]):
@@ -147,7 +147,8 @@ def run(ctx):
         ctx.case(key=('cache_to_data', tuple(n), rho, r0, a, b, nswp), nontrivial=len(keys_) > 1)
         okc = isinstance(Ic, np.ndarray) and isinstance(yc, np.ndarray) and Ic.shape == (len(keys_), len(n)) and yc.shape == (len(keys_),)
         okc = okc and np.issubdtype(Ic.dtype, np.integer) and len(keys_) == info_['m'] == sum(len(c_) for c_ in calls_)
-        okc = okc and np.array_equal(Ic, np.array(keys_, dtype=int)) and np.array_equal(yc, Td[tuple(Ic.T)]) and list(cache_.keys()) == keys_
+        # (the order of the rows is not part of the contract: pairs are compared as a set)
+        okc = okc and sorted(zip(map(tuple, Ic.tolist()), yc.tolist())) == sorted((k_, float(cache_[k_])) for k_ in keys_) and np.array_equal(yc, Td[tuple(Ic.T)]) and list(cache_.keys()) == keys_
         okc = okc and len(set(keys_)) == len(keys_) and set(keys_) == set(tuple(int(x) for x in row) for c_ in calls_ for row in c_)
         ctx.check(okc, 'cross:cache-contents', 'cache_to_data(cache) after a cached run is not the list of evaluated index -> value pairs '
                   '(rows %s, keys %d, info m %s, oracle rows %d)' % (getattr(Ic, 'shape', None), len(keys_), info_.get('m'), sum(len(c_) for c_ in calls_)),
